@@ -45,7 +45,11 @@ func (a *Async) probeInadmissible() {
 	anyBody := func(t dbft.MessageType) any {
 		switch t {
 		case dbft.PrepareRequestType:
-			return &vt.PrepareRequest{Ts: n.TipTs + w.Cfg.TsIncrement, N: uint64(a.r("x", 5))}
+			nonce := uint64(a.r("x", 5))
+			if a.pct("policybad", 30) {
+				nonce = 0xBAD0 + nonce%4 // one the applications' policy check rejects: still no effect when the proposal is inadmissible anyway
+			}
+			return &vt.PrepareRequest{Ts: n.TipTs + w.Cfg.TsIncrement, N: nonce}
 		case dbft.PrepareResponseType:
 			var ph vt.H
 			if p := d.PreparationPayloads[pi]; p != nil && a.pct("goodhash", 70) {
